@@ -3,6 +3,7 @@ import Hyeong.Driver.NumOps
 import Hyeong.Driver.BigOps
 import Hyeong.Driver.ExecOps
 import Hyeong.Driver.OptOps
+import Hyeong.Driver.AppOps
 /-!
 hydrv — the model driver: answers the same one-line operations as harness/ (hyverif) from the
 formal model (`m.` prefix = Hyeong.Model, `s.` prefix = Hyeong.Spec). Imports core-only files.
@@ -40,6 +41,7 @@ def dispatch (f : List String) : String :=
   | ["m.bigparse", b, t] => mBigParse b t
   | ["s.bigstr", b, a] => sBigStr b a
   | ["s.bigparse", b, t] => sBigParse b t
+  | ["m.repl", s] => replOp s
   | ["m.opt", l, p] => optOp l p
   | ["m.exec", "run1", p, i, _] => runOptOp "1" p i
   | ["m.exec", "run2", p, i, _] => runOptOp "2" p i
